@@ -16,6 +16,15 @@ def repeatEach {α} (l : List α) (k : Nat) : List α := l.flatMap (fun a => Lis
 /-- `np.tile(l, k)` : the whole list `k` times -/
 def tile {α} (l : List α) (k : Nat) : List α := (List.replicate k l).flatten
 
+/-- `np.arange(n, step=s)` = `0, s, 2s, … < n` -/
+def arangeStep (n s : Nat) : List Nat := (List.range ((n + s - 1) / s)).map (· * s)
+
+/-- element-wise sum of two index vectors (numpy raises unless the lengths agree: every use carries a length obligation) -/
+def addL (a b : List Nat) : List Nat := List.zipWith (· + ·) a b
+
+/-- `np.zeros(n)`, `np.ones(n)` as index vectors -/
+def constL (n v : Nat) : List Nat := List.replicate n v
+
 /-- normalise a Python slice bound on a sequence of length `n` (step +1): negative counts from the end,
     everything is clipped into `[0, n]` -/
 def normIdx (n : Nat) (k : Int) : Nat :=
